@@ -49,3 +49,31 @@ package config
 //@   modifies s.allowEIO3
 //@   census [C05.opts.eio3.census,C06.opts.eio3.census] (*ServerOptions).allowEIO3 written only by (*ServerOptions).SetAllowEIO3
 //@   ensures [C05.opts.eio3.own,C06.opts.eio3.own] s.allowEIO3 != nil && fresh(s.allowEIO3) && deref(s.allowEIO3) == allowEIO3
+
+// copying options into a server: every option that is set on the argument is copied through its setter with the argument's
+// value - whatever that value is (a zero interval or timeout is a configuration like any other) - and the CORS policy is
+// the one given, flags included. The function is a chain of thirteen independent tests; its paths are joined between
+// groups of them, and the clauses are the invariants at those joins.
+//@ func (*ServerOptions).Assign(data)
+//@   props C07, C17, C10
+//@   requires s != nil
+//@   modifies *
+//@   cutafter ServerOptionsInterface.GetRawUpgradeTimeout#1
+//@     invariant s != nil && data != nil
+//@     invariant calls(ServerOptionsInterface.GetRawCors) == 0 && calls((*ServerOptions).SetCors) == 0
+//@     invariant [C07.assign.timeout]  ret(ServerOptionsInterface.GetRawPingTimeout, 1) != nil ==> calls((*ServerOptions).SetPingTimeout) == 1 && arg((*ServerOptions).SetPingTimeout, 1, pingTimeout) == ret(ServerOptionsInterface.PingTimeout, 1)
+//@     invariant [C07.assign.interval] ret(ServerOptionsInterface.GetRawPingInterval, 1) != nil ==> calls((*ServerOptions).SetPingInterval) == 1 && arg((*ServerOptions).SetPingInterval, 1, pingInterval) == ret(ServerOptionsInterface.PingInterval, 1)
+//@     invariant calls(ServerOptionsInterface.GetRawMaxHttpBufferSize) == 0 && calls((*ServerOptions).SetMaxHttpBufferSize) == 0
+//@   cutafter ServerOptionsInterface.GetRawAllowRequest#1
+//@     invariant s != nil && data != nil
+//@     invariant calls(ServerOptionsInterface.GetRawCors) == 0 && calls((*ServerOptions).SetCors) == 0
+//@     invariant [C10.assign.limit] ret(ServerOptionsInterface.GetRawMaxHttpBufferSize, 1) != nil ==> calls((*ServerOptions).SetMaxHttpBufferSize) == 1 && arg((*ServerOptions).SetMaxHttpBufferSize, 1, maxHttpBufferSize) == ret(ServerOptionsInterface.MaxHttpBufferSize, 1)
+//@   cutafter ServerOptionsInterface.GetRawPerMessageDeflate#1
+//@     invariant s != nil && data != nil
+//@     invariant calls(ServerOptionsInterface.GetRawCors) == 0 && calls((*ServerOptions).SetCors) == 0
+//@   cutafter ServerOptionsInterface.GetRawCookie#1
+//@     invariant s != nil && data != nil
+//@     invariant calls(ServerOptionsInterface.GetRawCors) == 0 && calls((*ServerOptions).SetCors) == 0
+//@   cutafter ServerOptionsInterface.GetRawAllowEIO3#1
+//@     invariant s != nil && data != nil
+//@     invariant [C17.assign.cors] ret(ServerOptionsInterface.GetRawCors, 1) != nil ==> calls((*ServerOptions).SetCors) == 1 && arg((*ServerOptions).SetCors, 1, cors) == ret(ServerOptionsInterface.Cors, 1)
